@@ -478,10 +478,14 @@ deriving Repr, DecidableEq
             status['LogRule.' + nm] = {'ok': True}
         for needle in ("if method in ('multicomplex',) or self.n == 0:", 'parity = self._parity(method, order, method_order)',
                        'fd_rules = linalg.pinv(fd_mat)', 'if self._flip_fd_rule:\nreturn -fd_rules[rule_index]',
-                       'return fd_rules[rule_index]', 'FD_RULES.get((step_ratio, parity, num_terms))',
-                       'FD_RULES[step_ratio, parity, num_terms] = fd_rules', 'step_ratio = make_exact(step_ratio)'):
+                       'return fd_rules[rule_index]', 'step_ratio = make_exact(step_ratio)'):
             if needle not in src:
                 raise Unsupported('rule() shape changed: %r not found' % needle)
+        # the cache: whatever the module-level dict is called, it is read and written under the key (step_ratio, parity, num_terms)
+        import re as _re
+        for pat in (r'\b\w+\.get\(\(step_ratio, parity, num_terms\)\)', r'\b\w+\[step_ratio, parity, num_terms\] = fd_rules'):
+            if not _re.search(pat, src):
+                raise Unsupported('rule() shape changed: the rule cache is not read / written under the key (step_ratio, parity, num_terms)')
         status['LogRule.rule.shape'] = {'ok': True}
     except (Unsupported, KeyError) as ex:
         for nm in ('num_terms', 'rule_index'):
